@@ -148,6 +148,51 @@ def check_mask(prog: Program, res: Result) -> None:
     res.floor(R, 7)
 
 
+def _notnan_rows_of(idx: ast.AST) -> Optional[ast.AST]:
+    """F when `idx` selects the rows of F whose first column is not NaN:  where(M)[0], nonzero(M, as_tuple=True)[0],
+    nonzero(M)[:, 0] / .squeeze(1) / .flatten(), with M = ~isnan(F[:, 0]) / isnan(F[:, 0]) == False / logical_not(isnan(F[:, 0]))."""
+    def is_call(e, name):
+        return isinstance(e, ast.Call) and norm(e.func).split(".")[-1] == name
+
+    def arg0(c):
+        return c.args[0] if c.args else (c.func.value if isinstance(c.func, ast.Attribute) and norm(c.func.value) != "torch" else None)
+
+    def first_arg(c):   # torch.f(x, ...) -> x ;  x.f(...) -> x
+        if isinstance(c.func, ast.Attribute) and norm(c.func.value) not in ("torch", "np"):
+            return c.func.value
+        return c.args[0] if c.args else None
+
+    M = None
+    if isinstance(idx, ast.Subscript) and astq.const_value(idx.slice) == 0 and isinstance(idx.value, ast.Call):
+        c = idx.value
+        if is_call(c, "where") and len(c.args) == 1 and not c.keywords:
+            M = c.args[0]
+        elif is_call(c, "nonzero") and any(k.arg == "as_tuple" and astq.const_value(k.value) is True for k in c.keywords):
+            M = first_arg(c)
+    elif isinstance(idx, ast.Subscript) and norm(idx.slice).replace(" ", "") in ("(:,0)", ":,0"):
+        c = idx.value
+        if is_call(c, "nonzero") and not c.keywords:
+            M = first_arg(c)
+    elif isinstance(idx, ast.Call) and isinstance(idx.func, ast.Attribute) and idx.func.attr in ("squeeze", "flatten") and is_call(idx.func.value, "nonzero") and not idx.func.value.keywords:
+        if idx.func.attr == "flatten" or [astq.const_value(a) for a in idx.args] in ([1], [-1]):
+            M = first_arg(idx.func.value)
+    if M is None:
+        return None
+    inner = None
+    if isinstance(M, ast.UnaryOp) and isinstance(M.op, ast.Invert):
+        inner = M.operand
+    elif isinstance(M, ast.Compare) and len(M.ops) == 1 and isinstance(M.ops[0], ast.Eq) and astq.const_value(M.comparators[0]) is False:
+        inner = M.left
+    elif is_call(M, "logical_not"):
+        inner = first_arg(M)
+    if inner is None or not is_call(inner, "isnan"):
+        return None
+    col = first_arg(inner)
+    if isinstance(col, ast.Subscript) and norm(col.slice).replace(" ", "") in ("(:,0)", ":,0"):
+        return col.value
+    return None
+
+
 def check_valid(prog: Program, res: Result) -> None:
     """Read off the expanded data flow around the single in-place update `refined[idx] += offsets` (names, statement
     splitting and helper extraction do not matter):
@@ -187,10 +232,11 @@ def check_valid(prog: Program, res: Result) -> None:
     base = astq.expand_at(fn, a.target.value, a)
     offs = astq.expand_at(fn, a.value, a, unpack_calls=True, stop=[st])
     ti = T(idx)
-    mi = re.fullmatch(r"torch\.where\(~torch\.isnan\((.+)\[:,0\]\)\)\[0\]", ti) or re.fullmatch(r"torch\.where\(torch\.isnan\((.+)\[:,0\]\)==False\)\[0\]", ti)
-    ok = mi is not None and mi.group(1) in flat_forms
+    flat_of_idx = _notnan_rows_of(idx)
+    tfl = T(flat_of_idx) if flat_of_idx is not None else None
+    ok = tfl is not None and tfl in flat_forms
     res.ob(R, ok, fi.qualname, "valid_idx = rows of the flattened peak list that are not NaN", f"the updated rows are `{short(idx, 70)}`", where)
-    res.ob(R, ok, fi.qualname, "peaks flattened to (samples*channels, 2)", f"peaks are flattened as `{mi.group(1) if mi else '?'}`", where)
+    res.ob(R, ok, fi.qualname, "peaks flattened to (samples*channels, 2)", f"peaks are flattened as `{tfl or '?'}`", where)
     tb = T(base)
     okc = tb.endswith(".clone()") and tb[: -len(".clone()")] in flat_forms
     res.ob(R, okc, fi.qualname, "refinement works on a clone of the rough peaks", f"the refined peaks start as `{short(base, 50)}`: not a clone of the flattened rough peaks (NaN rows / caller's tensor affected)", where)
@@ -231,7 +277,7 @@ def check_valid(prog: Program, res: Result) -> None:
         if okb:
             b3 = astq.bind_args(prog.func("sleap_nn.data.instance_cropping:make_centered_bboxes"), bx)
             tc = T(b3.get("centroids"))
-            okv = mi is not None and tc == f"{mi.group(1)}[{ti}]"
+            okv = tfl is not None and tc == f"{tfl}[{ti}]"
             res.ob(R, okv, fi.qualname, "boxes are built for rough_peaks[valid_idx]", f"boxes are built for `{short(b3.get('centroids'), 50)}`", where)
             okb = okv and T(b3.get("box_height")) == T(b3.get("box_width")) and T(b3.get("box_height")) in (n, "integral_patch_size")
         res.ob(R, okb, fi.qualname, "patch boxes centred on the valid peaks", "patch boxes are not centred on the valid peaks with the patch size", where)
@@ -246,7 +292,9 @@ def check_valid(prog: Program, res: Result) -> None:
             n_ref += 1
             fx = T(astq.expand_at(fn, el[0], r))
             ok = fx in {f"{f}.clone().reshape({S_},{C_},2)" for f in flat_forms} | {f"{f}.clone().view({S_},{C_},2)" for f in flat_forms}
-            res.ob(R, ok and isinstance(el[0], ast.Name) and norm(a.target.value) == first, fi.qualname, "result reshaped back to (samples, channels, 2)",
+            # the returned clone is the one updated in place: there is one .clone() in the function and both expand to it
+            n_clones = len([c for c in walk_function(fn) if isinstance(c, ast.Call) and isinstance(c.func, ast.Attribute) and c.func.attr == "clone"])
+            res.ob(R, ok and n_clones == 1, fi.qualname, "result reshaped back to (samples, channels, 2)",
                    f"the refined result is `{short(el[0], 40)}` = `{fx[:80]}`: not the updated clone reshaped back to (samples, channels, 2)", f"{fi.module.relpath}:{r.lineno}")
         res.ob(R, ok, fi.qualname, f"return ({first}, values of the rough detection)", f"a return path yields `{short(r.value, 50)}`", f"{fi.module.relpath}:{r.lineno}")
     res.ob(R, n_ref == 1, fi.qualname, "one refined return path", f"{n_ref} refined return paths", fi.where)
